@@ -40,9 +40,14 @@ def run(rep):
     marg0 = show(mcalls[0]["args"][0]) if mcallee else None
     rep.check(mcallee == "solver::solve" and marg0 == "self.detection", "T-VALIDATE", "T-VALIDATE/matches-callee", m.sp, "Rule::matches = solver::solve(&self.detection, document)", "%s(%s, ..)" % (mcallee, marg0))
     body = v.body
-    loops = [s["e"] for s in body.get("stmts", []) if s["k"] == "Expr" and s["e"].get("k") == "For"]
-    srcs = [show(l["iter"]) for l in loops]
-    rep.check(srcs == ["self.true_positives", "self.true_negatives"], "T-VALIDATE", "T-VALIDATE/loops", v.sp, "exactly two top-level loops over true_positives then true_negatives", str(srcs))
+    def src_field(l):
+        it = peel(l["iter"])
+        while it.get("k") == "Call" and (it.get("fn") or "").endswith(("Deref::deref", "::iter", "IntoIterator::into_iter", "::as_slice")) and it.get("args"):
+            it = peel(it["args"][0])
+        return it.get("name") if it.get("k") == "Field" and q.var_id(it["arg"]) == strip_ref(v.thir["params"][0]["pat"]).get("id") else None
+    loops = [n for n, path in walk_with_path(body) if n.get("k") == "For" and src_field(n) is not None and not any(p_.get("k") in ("For", "Loop", "Closure") for p_ in path)]
+    srcs = [src_field(l) for l in loops]
+    rep.check(srcs == ["true_positives", "true_negatives"], "T-VALIDATE", "T-VALIDATE/loops", v.sp, "exactly two loops, over self.true_positives then self.true_negatives", str(srcs))
     errs = [s for s in body.get("stmts", []) if s["k"] == "Let" and s["pat"].get("k") == "Bind" and s["pat"].get("ty") == "std::vec::Vec<std::string::String>"]
     eid = errs[0]["pat"]["id"] if errs else None
 
@@ -89,9 +94,19 @@ def run(rep):
             c = peel(ifs[0]["cond"])
             detp = show(c)[:80]
             neg = False
-            while c.get("k") == "Unary" and c["op"] == "Not":
-                neg = not neg
-                c = peel(c["arg"])
+            for _ in range(4):
+                if c.get("k") == "Unary" and c["op"] == "Not":
+                    neg = not neg
+                    c = peel(c["arg"])
+                elif c.get("k") == "Binary" and c["op"] in ("Eq", "Ne") and (lit(c["rhs"]) or lit(c["lhs"])) and (lit(c["rhs"]) or lit(c["lhs"]))[0] == "bool":
+                    # `solve(..) != true`, `solve(..) == false` ...
+                    litv = (lit(c["rhs"]) or lit(c["lhs"]))[1]
+                    other = peel(c["lhs"]) if lit(c["rhs"]) else peel(c["rhs"])
+                    if (c["op"] == "Eq") != litv:
+                        neg = not neg
+                    c = other
+                else:
+                    break
             is_verdict = c is call or (c.get("k") == "Var" and q.resolve(l["body"], c) is call)
             then_p = any(is_push(x) for x in walk(ifs[0]["then"]))
             else_p = ifs[0].get("else") is not None and any(is_push(x) for x in walk(ifs[0]["else"]))
@@ -190,14 +205,14 @@ def run(rep):
     # the MIR agrees: no Assert terminators, no unwrap/expect/panic calls in non-cleanup blocks
     masserts = []
     if v.mir:
-        for b in v.mir["blocks"]:
-            if b["cleanup"]:
-                continue
-            t = b["term"]
-            if t.get("k") == "Assert":
-                masserts.append(t.get("assert"))
-            if t.get("k") == "Call" and t.get("fn") and any(rx.search(t["fn"]) for _, rx in panic.PANIC_CALLEES):
-                masserts.append(t["fn"])
+        cache_ = {}
+        for s_ in panic.sites_of(F, v.name):
+            if s_.kind == "index" and "true_" not in str(s_.detail):
+                pass
+            located = panic.locate(F, s_, cache_)
+            if located and panic.discharge(F, s_):
+                continue  # e.g. a unit-step counter or the sum of two lengths: cannot fire
+            masserts.append("%s %s" % (s_.kind, s_.callee))
     rep.check(not masserts, "NO-PANIC", "NO-PANIC/validate-mir", v.sp, "MIR of validate has no assert/unwrap/expect/panic terminator outside cleanup", "; ".join(map(str, masserts)))
     rep.floor("T-VALIDATE", 18)
     rep.floor("NO-PANIC", 2)
